@@ -228,6 +228,7 @@ func analyse(root, tier string) *Result {
 	t0 := time.Now()
 	ctl := runControls()
 	p := Load(root, false, true)
+	debugDump(p)
 	c := newCtx(p)
 	res := &Result{Tier: tier, Repo: root, Packages: len(p.Repo), AllPkgs: len(p.All), RepoFuncs: p.NumFuncs,
 		DepErrors: p.DepErrs, Timings: p.Timings, Controls: ctl}
